@@ -376,8 +376,11 @@ def parse_stdout(text):
 def run(ctx):
     wd = ctx.workdir()
     try:
+        if ctx.replay and json.load(open(ctx.replay))["case"].get("file_stats"):
+            return file_cases(ctx, wd, [json.load(open(ctx.replay))["case"]])
         _run(ctx, wd)
         if not ctx.replay:
+            file_cases(ctx, wd)
             functions(ctx)
     finally:
         shutil.rmtree(wd, ignore_errors=True)
@@ -603,6 +606,113 @@ def judge(ctx, case, res):
     if len(ctx.samples) < 3 and nontrivial and len(case["records"]) <= 8:
         ctx.sample({"records": [[r["chrom"], r["pos"], r["ref"], r["alts"], r["format"], r["calls"]] for r in case["records"]],
                     "tsv": {r["chromosome"]: {k: r[k] for k in INT_FIELDS} for r in res["tsv"]}, "block_list": res["bl"]})
+
+
+# ------------------------------------------------------------------------------------------------
+# multi-sample files through the whole-file reader (`c12.file` = run_stats on top of C09File.readFile)
+# ------------------------------------------------------------------------------------------------
+
+def file_cases(ctx, wd, cases=None):
+    """`whatshap stats` (CLI) on the phase files of the C09 file generator (1-3 samples with an encoding each, encodings per
+    contig / per sample, ploidy changes, malformed HP, split contigs, unsorted pairs) against `c12.file`: sample selection
+    (default, --sample, a sample the file lacks), the reader's errors as the outcome of the run (whichever sample causes them),
+    --chromosome / --only-snvs, every TSV field, block list, GTF"""
+    from harness.gen.c09_file import gen_file_case, build_file
+    from harness.gen import c09_fileops as F
+    from harness.gen import c04_records as R
+    rng = ctx.rng
+    if cases is None:
+        cases = [c for _, c in ctx.corpus() if c.get("file_stats")]
+        for _ in range((40 if ctx.quick else 400) * ctx.scale):
+            c = gen_file_case(rng, ctx.quick)
+            c["file_stats"] = {"which": rng.randrange(2), "sample": rng.choice([None, None, "first", "last", "S9", ""]),
+                               "chromosomes": rng.choice([[], [], [], ["chr1"], ["chr2"], ["chr2,chr1"], ["chr3", "chr1"]])}
+            cases.append(c)
+    jobs = []
+    for n, case in enumerate(cases):
+        d = os.path.join(wd, f"f{n}")
+        shutil.rmtree(d, ignore_errors=True)
+        b = build_file(case, d)
+        o = case["file_stats"]
+        P = b["P"][o["which"] % len(b["P"])]
+        _, samples, recs = R.load_vcf(P)
+        sample = {None: None, "first": samples[0] if samples else None, "last": samples[-1] if samples else None}.get(o["sample"], o["sample"])
+        verb = pysam.set_verbosity(0)          # htslib warns about PQ declared as Float: expected here
+        try:
+            with pysam.VariantFile(P) as vf:
+                contigs = [(c.name, c.length) for c in vf.header.contigs.values()]
+        finally:
+            pysam.set_verbosity(verb)
+        req = {"op": "c12.file", "fixMissing": True, "fixPs": True, "dedupGiven": True, "onlySnvs": case["only_snvs"],
+               "blockList": True, "indexed": False, "contigs": [c for c, _ in contigs],
+               "lens": [[c, l] for c, l in contigs if l is not None], "given": list(o["chromosomes"]), "samples": samples,
+               "sample": sample, "groups": F.groups_of(recs, samples)}
+        jobs.append((case, d, P, sample, req))
+
+    def execute(job):
+        case, d, P, sample, _ = job
+        tsv, bl, gtf = (os.path.join(d, n) for n in ("out.tsv", "out.blocks", "out.gtf"))
+        args = ["stats", "--tsv", tsv, "--block-list", bl, "--gtf", gtf] + (["--only-snvs"] if case["only_snvs"] else [])
+        for c in case["file_stats"]["chromosomes"]:
+            args += ["--chromosome", c]
+        if sample is not None:
+            args += ["--sample", sample]
+        rc, out, err, _ = sim.whatshap(args + [P], ctx.overlay)
+        res = {"rc": rc, "err": err, "out": out, "tsv": parse_tsv(tsv), "bl": parse_block_list(bl), "gtf": parse_gtf(gtf)}
+        shutil.rmtree(d, ignore_errors=True)
+        return res
+
+    with concurrent.futures.ThreadPoolExecutor(WORKERS) as pool:
+        results = list(pool.map(execute, jobs))
+    answers = ctx.model.ask_many([j[4] for j in jobs])
+    for (case, _, _, sample, req), res, ans in zip(jobs, results, answers):
+        ctx.evaluated()
+        if "error" in ans:
+            ctx.disagree("c12.file", case, "input not accepted by the driver", ans)
+            continue
+        ctx.dist("file_stats_samples", len(req["samples"]))
+        ctx.dist("file_stats_sample_option", "default" if not sample else ("given" if sample in req["samples"] else "unknown"))
+        if "err" in ans:
+            want = ans["err"]
+            ctx.dist("file_stats_outcome", want)
+            if want in ("sample-not-found", "no-sample"):
+                got = want if (res["rc"] == 0 and res["tsv"] is None and ("not found" in res["err"] or "not contain any sample" in res["err"])) else {"rc": res["rc"], "tsv": res["tsv"]}
+            elif res["rc"] == 0:
+                got = "ok"
+            elif "_extract_HP_phase" in res["err"]:
+                got = "hpFormat"
+            else:
+                got = err_class(res["err"])
+            if got != want:
+                ctx.disagree("c12.file (outcome)", case, got, want)
+            continue
+        ctx.dist("file_stats_outcome", "ok")
+        if res["rc"] != 0:
+            ctx.disagree("c12.file (outcome)", case, "hpFormat" if "_extract_HP_phase" in res["err"] else err_class(res["err"]), "ok")
+            continue
+        if res["tsv"] is None or res["bl"] is None or res["gtf"] is None:
+            ctx.fail("an output file was not written", case, key="output-missing")
+            continue
+        d = diff_model(ans, res)
+        if d is not None:
+            ctx.disagree("c12.file", case, d, "see implementation")
+        big = False
+        for r in res["tsv"]:
+            v = {k: int(r[k]) for k in INT_FIELDS}
+            big |= v["blocks"] > 0
+            if v["phased"] + v["unphased"] + v["singletons"] != v["heterozygous_variants"]:
+                ctx.fail(f"{r['chromosome']}: phased + unphased + singletons != heterozygous", case, key="sum-identity")
+            if v["variant_per_block_sum"] != v["phased"]:
+                ctx.fail(f"{r['chromosome']}: sum of block sizes != phased", case, key="block-sizes-sum")
+        alls = [r for r in res["tsv"] if r["chromosome"] == "ALL"]
+        if alls:
+            for k in INT_FIELDS:
+                tot = sum(int(r[k]) for r in res["tsv"] if r["chromosome"] != "ALL")
+                if int(alls[0][k]) != tot:
+                    ctx.fail(f"ALL.{k} = {alls[0][k]} != sum of the chromosome rows {tot}", case, key="all-row-not-sum")
+        if big:
+            ctx.nontrivial(json.dumps(case, sort_keys=True))
+        ctx.validated()
 
 
 # ------------------------------------------------------------------------------------------------
